@@ -1752,6 +1752,8 @@ int process_user_command () {
                   /* we now have a string ... switch back to char mode */
                   ip->iflags &= ~WAS_SINGLE_CHAR;
                   ip->iflags |= SINGLE_CHAR;
+                  if (cmd_in_buf (ip))
+                    ip->iflags |= CMD_IN_BUF;	/* as in set_call() */
                   set_telnet_single_char (ip, 1);
                   VALIDATE_IP (ip, command_giver);
                 }
@@ -2643,7 +2645,13 @@ int set_call (object_t * ob, sentence_t * sent, int flags) {
     }
 
   if (flags & I_SINGLE_CHAR)
-    set_telnet_single_char (ob->interactive, 1);
+    {
+      /* Text typed ahead that is no complete line is a complete command now:
+       * CMD_IN_BUF is otherwise only recomputed when bytes arrive. */
+      if (cmd_in_buf (ob->interactive))
+        ob->interactive->iflags |= CMD_IN_BUF;
+      set_telnet_single_char (ob->interactive, 1);
+    }
   return 1;
 }				/* set_call() */
 
